@@ -9,11 +9,11 @@ RUN_MODULE = 'Run.C07'
 COQ_EXTRA = ['Gen.C07Consts_ok']
 THEOREMS = ['C07_accounting', 'C07_disk_agrees', 'C07_lru_order', 'C07_get_is_use',
             'C07_too_large_refused', 'C07_never_wedges', 'C07_recency_survives_restart',
-            'C07_put_releases', 'C07_put_never_wedges']
+            'C07_put_releases', 'C07_put_never_wedges', 'C07_lazy_open_recovers']
 ASSUMPTIONS = [
     'no external interference with the cache directory for the disk-agreement and restart theorems (the property\'s "externally deleted files" are covered by the accounting / no-panic theorems and by the differential leg)',
     'the file-system clock is strictly monotone between file-touching calls (the harness rewrites each touched file\'s mtime to a logical clock after checking WHICH files the real code touched)',
-    'I/O errors other than "file missing" and a failing write of the entry data in DiskCache::put (disk full / quota / EFBIG, injected through RLIMIT_FSIZE) are not modelled',
+    'I/O errors other than "file missing" and a failing write of the entry data in DiskCache::put (disk full / quota / EFBIG, injected through RLIMIT_FSIZE) and a failing lazy open of the cache directory (ENOTDIR, injected by an obstacle file) are not modelled',
     'restart theorem only: no operation names a key whose file name starts with .sccachetmp (init deletes such files; sccache keys are hex digests)',
 ]
 TRUSTED = ['hook: LruDiskCache::verif_index / verif_pending (read-only views of the private LRU order and reservations)',
@@ -466,6 +466,98 @@ def put_neighbours(case):
     yield [cap, ops + [[b'put', b'cccc0002', min(cap, 60), 0]]]
 
 
+# ---------------------------------------------------------------- leg "lazy": lazy open with open faults
+
+def gen_lazy_exhaustive(depth):
+    alpha = [[b'put', b'aaaa0000', 40, 0, 0], [b'put', b'aaaa0000', 40, 0, 1], [b'put', b'bbbb0001', 70, 0, 0],
+             [b'put', b'bbbb0001', 60, 11, 0], [b'put', b'bbbb0001', 60, 1, 1],
+             [b'get', b'aaaa0000', 0], [b'get', b'aaaa0000', 1]]
+    out = []
+    for d in range(1, depth + 1):
+        for seq in itertools.product(alpha, repeat=d):
+            out.append([100, [list(o) for o in seq]])
+    return out
+
+
+def gen_lazy_random(rng, n, maxlen):
+    out = []
+    for _ in range(n):
+        cap = rng.choice([100, 150])
+        ops = []
+        nfail = rng.range(0, 3)                     # the first requests find the directory unusable
+        for j in range(rng.range(1, maxlen)):
+            of = 1 if (j < nfail or rng.chance(1, 8)) else 0
+            k = rng.choice(PKEYS)
+            if rng.chance(1, 3):
+                ops.append([b'get', k, of])
+            else:
+                sz = rng.choice([22, 40, 60, 100, 101])
+                ops.append([b'put', k, sz, 0 if rng.chance(2, 3) else rng.choice([1, 11]), of])
+        out.append([cap, ops])
+    return out
+
+
+def lazy_monitor(case, out):
+    """A failed lazy open is retried on the CONFIGURED directory: requests fail only while the directory cannot be
+    opened, nothing is ever written elsewhere, the cache keeps reporting the configured location, and afterwards
+    it behaves like any other DiskCache (put_monitor)."""
+    cap, ops = case[:2]
+    vs = []
+    if not isinstance(out, list) or len(out) != len(ops):
+        return ['malformed implementation output']
+    opened = False
+    served = []
+    for i, (op, obs) in enumerate(zip(ops, out)):
+        if obs and obs[0] == b'panic':
+            vs.append('op %d %s: the cache panicked' % (i, op))
+            return vs
+        res, size, index, ntmp, stray, loc_ok, nroot = obs
+        blocked = op[-1] == 1 and not opened
+        if blocked and res != b'open_err':
+            vs.append('op %d %s: answered %s although the configured cache directory could not be opened (the cache is rooted somewhere else)' % (i, op, res.decode()))
+        if not blocked:
+            opened = True
+            if res == b'open_err':
+                vs.append('op %d %s: the request fails although the cache directory can be opened now: an earlier failed open wedged the cache' % (i, op))
+        if stray:
+            vs.append('op %d %s: %d file(s) written outside the configured cache directory (under the working directory)' % (i, op, stray))
+        if not loc_ok:
+            vs.append('op %d %s: the cache no longer reports the configured directory as its location' % (i, op))
+        if nroot != len(index):
+            vs.append('op %d %s: %d entries indexed but %d entry files under the configured directory' % (i, op, len(index), nroot))
+        if res != b'open_err':
+            served.append((op[:-1], obs[:4]))
+    vs += put_monitor([cap, [o for o, _ in served]], [b for _, b in served])
+    return vs
+
+
+def lazy_nontrivial(case, out):
+    try:
+        return any(obs[0] in (b'open_err', b'write_err', b'panic') for obs in out)
+    except Exception:
+        return True
+
+
+def lazy_stats(case, out):
+    ks = ['lazy-cap=%d' % case[0]]
+    for op in case[1]:
+        ks.append('op=' + op[0].decode() + ('-openfault' if op[-1] else ''))
+    try:
+        for obs in out:
+            ks.append('res=' + obs[0].decode())
+    except Exception:
+        pass
+    return ks
+
+
+def lazy_neighbours(case):
+    cap, ops = case[:2]
+    for i in range(1, len(ops)):
+        yield [cap, ops[i:] + ops[:i]]
+    yield [cap, ops + [[b'put', b'cccc0002', 60, 0, 0]]]
+    yield [cap, [[b'get', b'aaaa0000', 1]] + ops + [[b'put', b'cccc0002', 60, 0, 0]]]
+
+
 def legs(tier):
     def gen(rng, tier):
         two = dict(keys=[b'a', b'b'], sizes=[0, 5, 10, 12, 13, 15])
@@ -479,6 +571,10 @@ def legs(tier):
         if tier == 'thorough':
             return gen_put_exhaustive(5) + gen_put_random(rng, 20000, 14)
         return gen_put_exhaustive(3) + gen_put_random(rng, 1200, 12)
+    def gen_lazy(rng, tier):
+        if tier == 'thorough':
+            return gen_lazy_exhaustive(5) + gen_lazy_random(rng, 10000, 10)
+        return gen_lazy_exhaustive(3) + gen_lazy_random(rng, 800, 10)
     return [Leg('lru', gen, compare_case=compare_case, monitor=monitor, nontrivial=nontrivial, shrink=shrink, neighbours=neighbours,
                 stats=stats,
                 rule='exhaustive op sequences over a 10-op alphabet (depth 3 quick / 5 thorough) + exhaustive two-phase/overwrite scenarios on a full two-entry cache (12-op alphabet, depth 3/4) + state-aware PRNG sequences of '
@@ -489,4 +585,10 @@ def legs(tier):
                 rule='real DiskCache::put / get (reserve -> write -> commit | abandon) with write faults injected through '
                      'RLIMIT_FSIZE (EFBIG after m bytes): exhaustive sequences over an 8-op alphabet (depth 3 quick / 5 thorough) '
                      '+ PRNG sequences of length<=12 over 3 keys x 10 sizes x 3 capacities x 6 fault points; non-trivial = a write '
-                     'failed or an entry was evicted')]
+                     'failed or an entry was evicted'),
+            Leg('lazy', gen_lazy, monitor=lazy_monitor, nontrivial=lazy_nontrivial, shrink=put_shrink, neighbours=lazy_neighbours,
+                stats=lazy_stats,
+                rule='real DiskCache opened lazily by the first request, with open faults (a regular file in the place of the '
+                     'cache directory\'s parent while the request runs) and write faults, in an empty scratch working directory: '
+                     'exhaustive sequences over a 7-op alphabet (depth 3 quick / 5 thorough) + PRNG sequences of length<=10 whose '
+                     'first 0-3 requests find the directory unusable; non-trivial = an open or a write failed')]
